@@ -219,14 +219,20 @@ def family_specs(draw, n, lmin, lmax, ens_max, rep_max, with_cov):
 
 
 def exclude_vanishing_solution(spec):
-    """Known finding F-C07-1: a correlated fit starts its second minimisation at the solution of the uncorrelated
-    fit; when that solution vanishes at rounding level (all true parameters zero and data exactly on the model),
-    Levenberg-Marquardt cannot leave it (MINPACK's first step bound is proportional to |x|) and the start point is
-    returned as result.  While the finding is open, correlated fits are generated with at least one parameter of
-    size >= 0.05 (the highest index always enters a data set); the replay in known/ probes the excluded class."""
-    if spec['correlated'] and findings.is_open('F-C07-1') and max(abs(v) for v in spec['ptrue']) < 0.05:
-        spec['ptrue'][-1] = 0.5
-        spec['excluded'] = ['F-C07-1']
+    """Known finding F-C07-1 (and its siblings 1b, 1c): a correlated fit starts its second minimisation at the solution of the
+    uncorrelated fit.  Where that solution has a component that vanishes at rounding level / at the stopping accuracy of the
+    first minimisation (a true parameter that is exactly zero, determined by data that lie exactly on the model), the
+    step-size heuristics of all three minimiser families are relative to |x| and starve that direction: MINPACK's first step
+    bound factor*|D x| (all components zero), scipy's Nelder-Mead initial simplex (5 % of each coordinate), Minuit's initial
+    step (10 % of each value).  The start point is returned as the result and reported as converged.  While the finding is
+    open, correlated fits are generated with all true parameters of modulus >= 0.05 (label excluded:F-C07-1); the replays in
+    known/ probe the excluded class."""
+    if spec['correlated'] and findings.is_open('F-C07-1'):
+        small = [k for k, v in enumerate(spec['ptrue']) if abs(v) < 0.05]
+        if small:
+            for k in small:
+                spec['ptrue'][k] = (0.3 + 0.1 * k) * (-1.0 if k % 2 else 1.0)
+            spec['excluded'] = ['F-C07-1']
 
 
 @st.composite
@@ -691,7 +697,9 @@ def judge(case, res, sigma, Wcall, ref, what=''):
     require(abs(chi - chi_at) <= 1e-9 * (1.0 + chi_at),
             pre + 'chisquare %r is not the weighted residual norm at the returned parameters %r' % (chi, chi_at))
     chi_min = ref['chi_min']
-    require(abs(chi - chi_min) <= 1e-9 * (1.0 + chi_min) + 10 * P * vt ** 2,
+    # (the returned parameters are allowed |dp_k| <= vt sigma_k + 1e-10 |p_k| above: the same distance in units of sigma, squared)
+    vt_eff = max(vt + 1e-10 * abs(float(phat[k])) / float(sig[k]) for k in range(P))
+    require(abs(chi - chi_min) <= 1e-9 * (1.0 + chi_min) + 10 * P * vt_eff ** 2,
             pre + 'chisquare %r, weighted residual norm at the GLS solution %r' % (chi, chi_min))
     dof = n - P + npri
     require(res.dof == dof, pre + 'dof is %r, points - parameters + priors = %d - %d + %d' % (res.dof, n, P, npri))
